@@ -272,10 +272,17 @@ func advFS[X sigma.Statement, W sigma.Witness, A sigma.Statement, S sigma.State,
 	// honest commitment, response to a neighbouring challenge
 	if a, st, err := p.ComputeProverCommitment(cs.x, cs.w); err == nil {
 		h := hashOf(cs.x, a)
-		e1 := c08FlipBit(r, h)
-		if z1, err := p.ComputeProverResponse(cs.x, cs.w, a, st, e1); err == nil {
-			present("response-for-neighbour", cs.x, a, h, z1, "reject")
-			present("neighbour-challenge", cs.x, a, e1, z1, "reject")
+		// a valid transcript whose challenge differs from the hash in one bit: of the first byte, of
+		// the last byte, of a random byte
+		for k, pos := range []int{0, n - 1, r.IntN(n)} {
+			e1 := append([]byte{}, h...)
+			e1[pos] ^= 1 << r.IntN(8)
+			if z1, err := p.ComputeProverResponse(cs.x, cs.w, a, st, e1); err == nil {
+				if k == 0 {
+					present("response-for-neighbour", cs.x, a, h, z1, "reject")
+				}
+				present("neighbour-challenge", cs.x, a, e1, z1, "reject")
+			}
 		}
 	}
 	// statement substitution: the valid proof for x presented for x' (one component differs)
@@ -701,23 +708,28 @@ func advFischlin[X sigma.Statement, W sigma.Witness, A sigma.Statement, S sigma.
 	if !c.Thorough() {
 		return
 	}
-	if d := forge(cs.x, cs.w, flCfg{k: fp.rho - 1, rhoLabel: rho - 1}); d != nil {
-		present("prover-configured-with-rho-minus-1", cs.x, d, "reject")
-	}
-	if d := forge(cs.x, cs.w, flCfg{k: fp.rho - 1, rhoLabel: rho}); d != nil {
-		present("one-repetition-fewer", cs.x, d, "reject")
-	}
-	if d := forge(cs.x, cs.w, flCfg{k: 2, rhoLabel: rho}); d != nil {
-		present("two-repetitions", cs.x, d, "reject")
+	// every further prover run costs as much as an honest proof: the cheap protocols get all of them
+	if cs.advFull {
+		if d := forge(cs.x, cs.w, flCfg{k: fp.rho - 1, rhoLabel: rho - 1}); d != nil {
+			present("prover-configured-with-rho-minus-1", cs.x, d, "reject")
+		}
+		if d := forge(cs.x, cs.w, flCfg{k: fp.rho - 1, rhoLabel: rho}); d != nil {
+			present("one-repetition-fewer", cs.x, d, "reject")
+		}
+		if d := forge(cs.x, cs.w, flCfg{k: 2, rhoLabel: rho}); d != nil {
+			present("two-repetitions", cs.x, d, "reject")
+		}
 	}
 	// the right number of simulated repetitions, each meeting the target on its own
-	if !cs.heavy {
+	// (rho * 2^b simulator runs: protocols with special soundness 2, i.e. b = 128/rho)
+	if cs.advFull || (!cs.heavy && p.SpecialSoundness() == 2) {
 		if d := forge(cs.x2, zeroW, flCfg{k: fp.rho, rhoLabel: rho, sim: true}); d != nil {
 			present("all-repetitions-simulated", cs.x2, d, "reject")
 		}
 	}
-	// component-count attacks on the sigma protocol underneath
-	for _, rz := range cs.resized {
+	// component-count attack on the sigma protocol underneath (one more honest prover run)
+	if len(cs.resized) > 0 {
+		rz := cs.resized[r.IntN(len(cs.resized))]
 		if d := flForge(r, spec.build(), rz.proto, fischlinParamsOf(rz.proto.Name(), rz.proto.SpecialSoundness()), randomised, rz.x, rz.w, flCfg{k: fp.rho, rhoLabel: rho}); d != nil {
 			present("count-"+rz.kind, rz.x, d, "reject")
 		}
